@@ -446,3 +446,26 @@ def run(ctx):
                      for x in own_nodes(g2.node)),
                  ctx.construct(g2, extra='schedules the check'),
                  'the integrity check is not scheduled', ctx.loc(g2))
+    # every execution gets its own check chain, sub-workflows included: the
+    # check only looks at the tasks of the execution it was scheduled for
+    sw = prog.func('mistral.engine.workflow_handler.start_workflow')
+    scfg = ctx.cfg(sw)
+    arm = U.calls_in(scfg, '_schedule_check_and_fix_integrity')
+    r4.check(len(arm) == 1 and not U.guard_atoms(scfg, arm[0][0]) and
+             scfg.must_pass(scfg.entry, [arm[0][0]], exits=[scfg.exit]) and
+             norm(arm[0][1].args[0]) == 'wf.wf_ex',
+             ctx.construct(sw, extra='armed for every execution'),
+             'the integrity check is not armed unconditionally when an '
+             'execution is started (%s): the check covers the tasks of one '
+             'execution only, so an execution without its own chain (a '
+             'sub-workflow) keeps a stuck task for ever'
+             % [(norm(a), t_) for n_, _c in arm
+                for a, t_ in U.guard_atoms(scfg, n_)], ctx.loc(sw))
+    icq = [c for c in own_nodes(ic.node) if isinstance(c, ast.Call) and
+           U.call_name(c) == 'get_task_executions']
+    r4.check(len(icq) == 1 and norm(U.kwarg(icq[0], 'workflow_execution_id')
+                                    or ast.Constant(None)) in (
+                 'wf_ex.id', 'wf_ex_id'),
+             ctx.construct(ic, extra='tasks of this execution'),
+             'the integrity check does not scan the tasks of the execution '
+             'it was scheduled for', ctx.loc(ic))
